@@ -349,6 +349,9 @@ func (in *Interp) equals(t types.Type, x, y value) *smt.Term {
 	case *opaque:
 		yo, ok := y.(*opaque)
 		return c.BoolConst(ok && x == yo)
+	case *engineErr:
+		ye, ok := y.(*engineErr)
+		return c.BoolConst(ok && x == ye)
 	}
 	panic(fmt.Sprintf("equals: unexpected %T vs %T (type %v)", x, y, t))
 }
